@@ -125,13 +125,6 @@ def o_exact_auprc(fs, ys):
     return tot / len(pos)
 
 
-def columns(kw):
-    """list of (scores, labels) binary problems of a call + how the result is averaged."""
-    inp, tgt = kw["input"], kw["target"]
-    xs = [[Fr(v) for v in row] for row in (inp.tolist() if inp.ndim == 2 else [inp.tolist()])]
-    return xs, tgt.tolist()
-
-
 def problems(fn, kw):
     inp, tgt = kw["input"], kw["target"]
     if fn.startswith("binary"):
@@ -168,6 +161,8 @@ def oracle(fn: str, kw: dict, floored=False):
     if not t and not (kind == "auroc" and fn.startswith("binary")):
         return None
     if "optimization" in kw and kw["optimization"] not in ("vectorized", "memory"):
+        return None
+    if kw.get("average", "macro") not in ("macro", "none", None):
         return None
     if fn == "multiclass_binned_auroc" and not floored:
         return None     # the code's own output is not a per-threshold-counting quantity of the classes (known finding)
